@@ -1,2 +1,928 @@
-// Package c13: check for property C13 (see /verif/DESIGN.md §3 C13).
+// Package c13: join pairs exactly the matching records and accounts for every
+// record once (DESIGN.md §3 C13, E2 part). Bounded exhaustive enumeration of
+// (left file, right stream, option set) on the real code through the whole CLI
+// (vf.RunMlr), against a nested-loop reference join written from the usage
+// text (ref.go) plus model-free laws on record identities.
 package c13
+
+import (
+	"fmt"
+	"os"
+	"sort"
+	"strconv"
+	"strings"
+
+	"verif/harness/vf"
+)
+
+func init() {
+	vf.Register(&vf.CheckDef{ID: "C13", Level: "model_checking", Run: run,
+		Workers: map[string]vf.WorkerFunc{"grid": gridWorker}})
+}
+
+// ---------------------------------------------------------------- alphabet
+
+const missing = "\x00" // the join field is absent from the record
+
+func symName(s string) string {
+	switch s {
+	case missing:
+		return "M"
+	case "":
+		return "E"
+	}
+	return s
+}
+
+type tuple []string // one text (or missing) per join field
+
+func (t tuple) String() string {
+	if len(t) == 0 {
+		return "*"
+	}
+	s := make([]string, len(t))
+	for i, v := range t {
+		s[i] = symName(v)
+	}
+	return strings.Join(s, "+")
+}
+
+func tuplesString(ts []tuple) string {
+	s := make([]string, len(ts))
+	for i, t := range ts {
+		s[i] = t.String()
+	}
+	return "[" + strings.Join(s, " ") + "]"
+}
+
+// all sequences over alpha of length 0..maxLen, by length then lexicographic
+func sequences(alpha []tuple, maxLen int) [][]tuple {
+	out := [][]tuple{{}}
+	prev := [][]tuple{{}}
+	for n := 1; n <= maxLen; n++ {
+		var cur [][]tuple
+		for _, p := range prev {
+			for _, a := range alpha {
+				s := append(append([]tuple{}, p...), a)
+				cur = append(cur, s)
+			}
+		}
+		out = append(out, cur...)
+		prev = cur
+	}
+	return out
+}
+
+// ---------------------------------------------------------------- option dimensions
+
+type naming struct {
+	name       string
+	lj, rj, oj []string
+	flags      []string
+}
+
+type pvar struct {
+	name       string
+	flags      []string
+	lp, rp     string
+	hasLk      bool
+	lk         []string
+	lidVisible bool
+}
+
+type emit struct {
+	name       string
+	np, ul, ur bool
+	flags      []string
+}
+
+var emits = []emit{
+	{"paired", false, false, false, nil},
+	{"ul", false, true, false, []string{"--ul"}},
+	{"ur", false, false, true, []string{"--ur"}},
+	{"ul+ur", false, true, true, []string{"--ul", "--ur"}},
+	{"np+ul", true, true, false, []string{"--np", "--ul"}},
+	{"np+ur", true, false, true, []string{"--np", "--ur"}},
+	{"np+ul+ur", true, true, true, []string{"--np", "--ul", "--ur"}},
+}
+
+const eFull = 3 // index of --ul --ur
+
+var pvarsAll = []pvar{
+	{name: "p0", lidVisible: true},
+	{name: "lp", flags: []string{"--lp", "L_"}, lp: "L_", lidVisible: true},
+	{name: "rp", flags: []string{"--rp", "R_"}, rp: "R_", lidVisible: true},
+	{name: "lp+rp", flags: []string{"--lp", "L_", "--rp", "R_"}, lp: "L_", rp: "R_", lidVisible: true},
+	{name: "lk-lid", flags: []string{"--lk", "lid"}, hasLk: true, lk: []string{"lid"}, lidVisible: true},
+	{name: "lk-empty", flags: []string{"--lk", ""}, hasLk: true, lk: nil, lidVisible: false},
+	// thorough only:
+	{name: "lk-lid,v+lp", flags: []string{"--lk", "lid,v", "--lp", "L_"}, lp: "L_", hasLk: true, lk: []string{"lid", "v"}, lidVisible: true},
+	{name: "lk-alias-v", flags: []string{"--left-keep-field-names", "v"}, hasLk: true, lk: []string{"v"}, lidVisible: false},
+}
+
+var namings1 = []naming{
+	{"j", []string{"k"}, []string{"k"}, []string{"k"}, []string{"-j", "k"}},
+	{"lrj", []string{"k"}, []string{"k2"}, []string{"out"}, []string{"-l", "k", "-r", "k2", "-j", "out"}},
+	// thorough only:
+	{"jr", []string{"k"}, []string{"k2"}, []string{"k"}, []string{"-j", "k", "-r", "k2"}},
+	{"jl", []string{"k"}, []string{"k2"}, []string{"k2"}, []string{"-j", "k2", "-l", "k"}},
+}
+
+var namings2 = []naming{
+	{"j2", []string{"k", "m"}, []string{"k", "m"}, []string{"k", "m"}, []string{"-j", "k,m"}},
+	{"lrj2", []string{"k", "m"}, []string{"k2", "m2"}, []string{"o1", "o2"}, []string{"-l", "k,m", "-r", "k2,m2", "-j", "o1,o2"}},
+}
+
+var namings0 = []naming{
+	{"j0", []string{}, []string{}, []string{}, []string{"-j", ""}},
+}
+
+// ---------------------------------------------------------------- input construction
+
+// Left record i:  lid=L<i>, <join fields that are present>, v=a<i> [, x=p<i> when i==1 and hetero]
+// Right record i: rid=R<i>, v=A<i> [, x=q<i> when i==0 and hetero], <join fields that are present>
+// "v" collides on every pair, "x" on some; lid/rid are unique identities.
+func buildLeft(ts []tuple, names []string, hetero bool) []rec {
+	out := make([]rec, len(ts))
+	for i, t := range ts {
+		r := rec{{"lid", fmt.Sprintf("L%d", i)}}
+		for j, n := range names {
+			if t[j] != missing {
+				r = append(r, fld{n, t[j]})
+			}
+		}
+		r = append(r, fld{"v", fmt.Sprintf("a%d", i)})
+		if hetero && i == 1 {
+			r = append(r, fld{"x", fmt.Sprintf("p%d", i)})
+		}
+		out[i] = r
+	}
+	return out
+}
+
+func buildRight(ts []tuple, names []string, hetero bool) []rec {
+	out := make([]rec, len(ts))
+	for i, t := range ts {
+		r := rec{{"rid", fmt.Sprintf("R%d", i)}, {"v", fmt.Sprintf("A%d", i)}}
+		if hetero && i == 0 {
+			r = append(r, fld{"x", fmt.Sprintf("q%d", i)})
+		}
+		for j, n := range names {
+			if t[j] != missing {
+				r = append(r, fld{n, t[j]})
+			}
+		}
+		out[i] = r
+	}
+	return out
+}
+
+// ---------------------------------------------------------------- families
+
+type family struct {
+	name    string
+	alpha   []tuple
+	maxLen  int
+	must    string // when non-empty: only pairs in which this symbol occurs (the rest is covered by another family)
+	names   []naming
+	pv      [][]pvar // prefix/keep variants per naming (aligned with names)
+	ifs     string   // "," or ";"
+	formats bool     // also run the left-file format passes
+	sThin   bool     // -s on unsorted inputs only for the first naming / first pvar
+	// sortedOnly: only lists that are sorted by the key (key-less records anywhere); longer lists for the -s merge
+	sortedOnly bool
+	noIE       bool // the alphabet has no empty value: --ignore-empty is not varied
+}
+
+func t1(vals ...string) []tuple {
+	out := make([]tuple, len(vals))
+	for i, v := range vals {
+		out[i] = tuple{v}
+	}
+	return out
+}
+
+func families(quick bool) []family {
+	k4 := t1("1", "2", "", missing)
+	k5 := t1("1", "2", "", missing, "01")
+	// two join fields; "1,1"+"1" and "1"+"1,1" are different keys with the same comma-joined text
+	t8 := []tuple{{"1", "1"}, {"1", "2"}, {"2", "1"}, {"1", ""}, {"1", missing}, {missing, "1"}, {"1,1", "1"}, {"1", "1,1"}}
+	t5 := []tuple{{"1", "1"}, {"1", "2"}, {"2", "1"}, {"1", missing}, {"", "1"}}
+	z := []tuple{{}}
+	p2 := []pvar{pvarsAll[0], pvarsAll[3]}
+	p3 := []pvar{pvarsAll[0], pvarsAll[3], pvarsAll[5]}
+	p6 := pvarsAll[:6]
+	p1 := pvarsAll[:1]
+	k3 := t1("1", "2", "3")
+	k3m := t1("1", "2", "3", missing)
+	if quick {
+		return []family{
+			{name: "one", alpha: k4, maxLen: 3, names: namings1[:2], pv: [][]pvar{p6, p3}, ifs: ",", formats: true, sThin: true},
+			{name: "one01", alpha: k5, maxLen: 2, must: "01", names: namings1[:2], pv: [][]pvar{p6, p3}, ifs: ",", formats: true, sThin: true},
+			{name: "two", alpha: t8, maxLen: 2, names: namings2, pv: [][]pvar{p2, p2}, ifs: ";", sThin: true},
+			{name: "zero", alpha: z, maxLen: 3, names: namings0, pv: [][]pvar{p2}, ifs: ","},
+			{name: "sorted5", alpha: k3, maxLen: 5, names: namings1[:1], pv: [][]pvar{p1}, ifs: ",", sortedOnly: true, noIE: true},
+		}
+	}
+	return []family{
+		{name: "one", alpha: k5, maxLen: 3, names: namings1, pv: [][]pvar{pvarsAll, pvarsAll, p2, p2}, ifs: ",", formats: true, sThin: true},
+		{name: "two", alpha: t8, maxLen: 2, names: namings2, pv: [][]pvar{p6, p6}, ifs: ";"},
+		{name: "two3", alpha: t5, maxLen: 3, names: namings2, pv: [][]pvar{p2, p2}, ifs: ";", sThin: true},
+		{name: "zero", alpha: z, maxLen: 3, names: namings0, pv: [][]pvar{p6}, ifs: ","},
+		{name: "sorted5", alpha: k3m, maxLen: 5, names: namings1[:1], pv: [][]pvar{p1}, ifs: ",", sortedOnly: true, noIE: true},
+	}
+}
+
+type pairCase struct {
+	L, R []tuple
+}
+
+func (f *family) pairs() []pairCase {
+	seqs := sequences(f.alpha, f.maxLen)
+	if f.sortedOnly {
+		var keep [][]tuple
+		for _, s := range seqs {
+			if _, loose := sortedness(buildLeft(s, f.names[0].lj, false), f.names[0].lj); loose {
+				keep = append(keep, s)
+			}
+		}
+		seqs = keep
+	}
+	var out []pairCase
+	has := func(ts []tuple) bool {
+		for _, t := range ts {
+			for _, v := range t {
+				if v == f.must {
+					return true
+				}
+			}
+		}
+		return false
+	}
+	for _, l := range seqs {
+		for _, r := range seqs {
+			if f.must != "" && !has(l) && !has(r) {
+				continue
+			}
+			out = append(out, pairCase{l, r})
+		}
+	}
+	// simplest first: total length, then the generation order (stable)
+	sort.SliceStable(out, func(i, j int) bool {
+		return len(out[i].L)+len(out[i].R) < len(out[j].L)+len(out[j].R)
+	})
+	return out
+}
+
+// ---------------------------------------------------------------- running one invocation
+
+type runner struct {
+	w      *vf.Worker
+	counts map[string]int64
+}
+
+func (rn *runner) count(k string, n int64) { rn.counts[k] += n }
+
+// viol records a violation; with VERIF_C13_DUMP=<file> the key is also appended
+// to that file (debugging aid for triage, no effect on the verdict).
+func (rn *runner) viol(key, what string, replay any) {
+	rn.w.Violation(key, what, replay)
+	if p := os.Getenv("VERIF_C13_DUMP"); p != "" {
+		if f, err := os.OpenFile(p, os.O_APPEND|os.O_CREATE|os.O_WRONLY, 0644); err == nil {
+			fmt.Fprintln(f, key)
+			f.Close()
+		}
+	}
+}
+
+type invocation struct {
+	args  []string
+	lname string
+	ltext string
+	rtext string
+}
+
+func shq(s string) string { return "'" + strings.ReplaceAll(s, "\n", `\n`) + "'" }
+
+func (iv *invocation) shell() string {
+	a := make([]string, len(iv.args))
+	for i, x := range iv.args {
+		if x == "" || strings.ContainsAny(x, " ;\"'") {
+			a[i] = "'" + x + "'"
+		} else {
+			a[i] = x
+		}
+	}
+	return fmt.Sprintf("printf %s > %s; printf %s | mlr %s", shq(iv.ltext), iv.lname, shq(iv.rtext), strings.Join(a, " "))
+}
+
+func (iv *invocation) replay(extra map[string]any) map[string]any {
+	m := map[string]any{"args": iv.args, "left_file_name": iv.lname, "left_file": iv.ltext, "stdin": iv.rtext, "shell": iv.shell()}
+	for k, v := range extra {
+		m[k] = v
+	}
+	return m
+}
+
+func (rn *runner) exec(iv *invocation) ([]rec, bool) {
+	for _, a := range iv.args {
+		if strings.HasPrefix(a, "-") && len(a) > 1 {
+			rn.count("flag:"+a, 1)
+		}
+	}
+	r := vf.RunMlr(iv.args, vf.MlrOpts{Stdin: &iv.rtext, Files: vf.VFS{iv.lname: iv.ltext}})
+	rn.w.Eval(1)
+	if !r.OK() || r.Stderr != "" {
+		rn.viol("run-error:"+strings.Join(iv.args, " ")+"|"+iv.ltext+"|"+iv.rtext,
+			fmt.Sprintf("`%s` fails: %s", iv.shell(), r.String()), iv.replay(map[string]any{"result": r.String()}))
+		return nil, false
+	}
+	recs, err := parseJSONL(r.Stdout)
+	if err != nil {
+		rn.viol("run-error:unparseable:"+strings.Join(iv.args, " ")+"|"+iv.ltext+"|"+iv.rtext,
+			fmt.Sprintf("`%s`: output is not a sequence of flat JSON records (%v): %q", iv.shell(), err, r.Stdout), iv.replay(map[string]any{"stdout": r.Stdout}))
+		return nil, false
+	}
+	return recs, true
+}
+
+// ---------------------------------------------------------------- the grid worker
+
+type groupOut struct {
+	ok      bool
+	recs    []rec
+	iv      *invocation
+	modelOK bool     // default-mode output equals the reference as a multiset
+	exp     []string // canonical multiset of the reference output
+}
+
+func gridWorker(w *vf.Worker) {
+	rn := &runner{w: w, counts: map[string]int64{}}
+	defer func() {
+		for k, v := range rn.counts {
+			w.Count(k, v)
+		}
+	}()
+	quick := w.Quick()
+	only := os.Getenv("VERIF_C13_FAMILY")
+	var idx uint64
+	sampled := map[string]bool{}
+	for _, fam := range families(quick) {
+		fam := fam
+		pairs := fam.pairs()
+		for _, pc := range pairs {
+			idx++
+			if only != "" && only != fam.name {
+				continue
+			}
+			if !w.Mine(idx) {
+				continue
+			}
+			w.Begin(idx)
+			pc := pc
+			w.Label(func() string {
+				return fmt.Sprintf("family %s L=%s R=%s", fam.name, tuplesString(pc.L), tuplesString(pc.R))
+			})
+			rn.block(&fam, pc)
+			if !sampled[fam.name] && len(pc.L) >= 2 && len(pc.R) >= 2 {
+				sampled[fam.name] = true
+				n := fam.names[len(fam.names)-1]
+				L, R := buildLeft(pc.L, n.lj, true), buildRight(pc.R, n.rj, true)
+				w.Sample(map[string]any{"family": fam.name, "left_file": writeDKVP(L, fam.ifs), "right_stream": writeDKVP(R, fam.ifs),
+					"example_args": "join " + strings.Join(n.flags, " ") + " --ul --ur --lp L_ -f L.dkvp"})
+			}
+		}
+	}
+}
+
+func (rn *runner) symbolCounts(side string, ts []tuple) {
+	for _, t := range ts {
+		for _, v := range t {
+			rn.count("sym:"+side+":"+symName(v), 1)
+		}
+	}
+}
+
+func mainFlags(ifs string) []string {
+	a := []string{"--idkvp", "--ojsonl", "--jvquoteall"}
+	if ifs != "," {
+		a = append(a, "--ifs", ifs)
+	}
+	return a
+}
+
+func buildArgs(ifs string, mode string, e *emit, ie bool, n *naming, p *pvar, leftFmt, lname string) []string {
+	a := mainFlags(ifs)
+	a = append(a, "join")
+	if mode != "" {
+		a = append(a, mode)
+	}
+	a = append(a, e.flags...)
+	if ie {
+		a = append(a, "--ignore-empty")
+	}
+	a = append(a, n.flags...)
+	a = append(a, p.flags...)
+	if leftFmt != "" {
+		a = append(a, "-i", leftFmt)
+	}
+	a = append(a, "-f", lname)
+	return a
+}
+
+func mkOpts(n *naming, p *pvar, e *emit, ie bool) joinOpts {
+	return joinOpts{lj: n.lj, rj: n.rj, oj: n.oj, lp: p.lp, rp: p.rp, hasLk: p.hasLk, lk: p.lk, np: e.np, ul: e.ul, ur: e.ur, ie: ie}
+}
+
+func caseKey(args []string, L, R []tuple) string {
+	// the args after "join", without the -f file name
+	i := 0
+	for i < len(args) && args[i] != "join" {
+		i++
+	}
+	a := append([]string{}, args[i+1:len(args)-2]...)
+	for j, x := range a {
+		if x == "" {
+			a[j] = `""`
+		}
+	}
+	return strings.Join(a, " ") + "|L=" + tuplesString(L) + "|R=" + tuplesString(R)
+}
+
+func (rn *runner) block(fam *family, pc pairCase) {
+	w := rn.w
+	rn.count("pairs:"+fam.name, 1)
+	rn.symbolCounts("L", pc.L)
+	rn.symbolCounts("R", pc.R)
+	quick := w.Quick()
+	ieMax := 2
+	if fam.noIE {
+		ieMax = 1
+	}
+	for ni := range fam.names {
+		n := &fam.names[ni]
+		L, R := buildLeft(pc.L, n.lj, true), buildRight(pc.R, n.rj, true)
+		ltext, rtext := writeDKVP(L, fam.ifs), writeDKVP(R, fam.ifs)
+		ls, ll := sortedness(L, n.lj)
+		rs, rl := sortedness(R, n.rj)
+		strict, loose := ls && rs, ll && rl
+		if ni == 0 {
+			switch {
+			case strict:
+				rn.count("domain:sorted-strict", 1)
+			case loose:
+				rn.count("domain:sorted-keyless-interleaved", 1)
+			default:
+				rn.count("domain:unsorted", 1)
+			}
+		}
+		for pi := range fam.pv[ni] {
+			p := &fam.pv[ni][pi]
+			// ---- default (unsorted, half-streaming) mode: model + laws
+			var u [2][]groupOut
+			for ie := 0; ie < ieMax; ie++ {
+				u[ie] = make([]groupOut, len(emits))
+				for ei := range emits {
+					e := &emits[ei]
+					iv := &invocation{args: buildArgs(fam.ifs, "", e, ie == 1, n, p, "", "L.dkvp"), lname: "L.dkvp", ltext: ltext, rtext: rtext}
+					recs, ok := rn.exec(iv)
+					u[ie][ei] = groupOut{ok: ok, recs: recs, iv: iv}
+					if !ok {
+						continue
+					}
+					rn.count("mode:u", 1)
+					rn.count("emit:"+e.name, 1)
+					rn.count("naming:"+n.name, 1)
+					rn.count("pvar:"+p.name, 1)
+					u[ie][ei].modelOK, u[ie][ei].exp = rn.checkModel(iv, recs, L, R, mkOpts(n, p, e, ie == 1), pc, true)
+				}
+				rn.laws(u[ie], n, p, ie == 1, pc)
+			}
+			// ---- -u spelled out is the default
+			if pi == 0 {
+				e := &emits[eFull]
+				iv := &invocation{args: buildArgs(fam.ifs, "-u", e, false, n, p, "", "L.dkvp"), lname: "L.dkvp", ltext: ltext, rtext: rtext}
+				if recs, ok := rn.exec(iv); ok && u[0][eFull].ok {
+					if !eqRecSeq(recs, u[0][eFull].recs) {
+						rn.viol("law-u-flag:"+caseKey(iv.args, pc.L, pc.R), fmt.Sprintf("`%s`: output with -u differs from the output without it (usage: -u is the default)\n with -u: %s\n without: %s",
+							iv.shell(), recsString(recs), recsString(u[0][eFull].recs)), iv.replay(nil))
+					}
+				}
+			}
+			// ---- sorted-input mode
+			if loose {
+				for ie := 0; ie < ieMax; ie++ {
+					for ei := range emits {
+						e := &emits[ei]
+						iv := &invocation{args: buildArgs(fam.ifs, "-s", e, ie == 1, n, p, "", "L.dkvp"), lname: "L.dkvp", ltext: ltext, rtext: rtext}
+						recs, ok := rn.exec(iv)
+						if !ok || !u[ie][ei].ok {
+							continue
+						}
+						rn.count("mode:s-sorted-input", 1)
+						if len(recs) > 0 {
+							rn.count("mode:s-sorted-input-nonempty-output", 1)
+						}
+						if sc := canonMultiset(recs); !eqStrings(sc, canonMultiset(u[ie][ei].recs)) {
+							if !u[ie][ei].modelOK && eqStrings(sc, u[ie][ei].exp) {
+								// the default-mode output is the wrong one (already reported against the reference); -s agrees with the reference
+								rn.count("law-sorted:difference-attributed-to-default-mode-violation", 1)
+								continue
+							}
+							g := "law-sorted-eq-unsorted:"
+							if !strict {
+								g = "law-sorted-keyless-interleaved:"
+							}
+							rn.viol(g+caseKey(iv.args, pc.L, pc.R), fmt.Sprintf("`%s`: both inputs are sorted by the join keys, yet -s and the default mode give different multisets of records\n -s:      %s\n default: %s",
+								iv.shell(), recsString(recs), recsString(u[ie][ei].recs)), iv.replay(map[string]any{"sorted_strict": strict}))
+						}
+					}
+				}
+			} else if !(fam.sThin && quick && (ni > 0 || pi > 0)) && !(fam.sThin && !quick && pi > 0) {
+				// unsorted input: -s need not pair everything, but must terminate, exit 0 and never pair non-matching records
+				for ie := 0; ie < ieMax; ie++ {
+					for ei := range emits {
+						e := &emits[ei]
+						iv := &invocation{args: buildArgs(fam.ifs, "-s", e, ie == 1, n, p, "", "L.dkvp"), lname: "L.dkvp", ltext: ltext, rtext: rtext}
+						recs, ok := rn.exec(iv)
+						if !ok {
+							continue
+						}
+						rn.count("mode:s-unsorted-input", 1)
+						if ei == eFull {
+							full := mkOpts(n, p, e, ie == 1)
+							want := map[string]int{}
+							for _, o := range refJoin(L, R, full) {
+								if o.kind == kPaired {
+									want[o.r.canon()]++
+								}
+							}
+							lost := false
+							seenL, seenR := map[string]bool{}, map[string]bool{}
+							for _, r := range recs {
+								_, hl := r.get(p.lp + "lid")
+								_, hr := r.get(p.rp + "rid")
+								if v, ok := r.get(p.lp + "lid"); ok {
+									seenL[v] = true
+								}
+								if v, ok := r.get(p.rp + "rid"); ok {
+									seenR[v] = true
+								}
+								if p.lidVisible && hl && hr {
+									if want[r.canon()] == 0 {
+										rn.viol("sorted-unsorted-input-falsepair:"+caseKey(iv.args, pc.L, pc.R), fmt.Sprintf("`%s`: -s on unsorted input emits a paired record %s that is not the pairing of two matching input records (or emits it too often)",
+											iv.shell(), r.String()), iv.replay(nil))
+									} else {
+										want[r.canon()]--
+									}
+								}
+							}
+							if p.lidVisible {
+								lost = len(seenL) != len(L) || len(seenR) != len(R)
+								if lost {
+									rn.count("unconstrained:s-unsorted-input-records-missing-under-ul-ur", 1)
+								} else {
+									rn.count("unconstrained:s-unsorted-input-all-records-present-under-ul-ur", 1)
+								}
+							}
+						}
+					}
+				}
+			}
+		}
+		// ---- left-file formats (thin option sets)
+		if fam.formats && ni < 2 {
+			rn.formatPass(fam, n, pc)
+		}
+	}
+}
+
+func eqRecSeq(a, b []rec) bool {
+	if len(a) != len(b) {
+		return false
+	}
+	for i := range a {
+		if a[i].canon() != b[i].canon() {
+			return false
+		}
+	}
+	return true
+}
+
+// checkModel compares one default-mode output with the reference join.
+func (rn *runner) checkModel(iv *invocation, got []rec, L, R []rec, o joinOpts, pc pairCase, nontrivialCount bool) (bool, []string) {
+	w := rn.w
+	exp := refJoin(L, R, o)
+	expRecs := make([]rec, len(exp))
+	nPairs, nUL, nUR := 0, 0, 0
+	pairedRid := map[string]bool{}
+	ridName := o.rp + "rid"
+	for i, e := range exp {
+		expRecs[i] = e.r
+		switch e.kind {
+		case kPaired:
+			nPairs++
+			v, _ := e.r.get(ridName)
+			pairedRid[v] = true
+		case kLeftUnpaired:
+			nUL++
+		case kRightUnpaired:
+			nUR++
+		}
+	}
+	if nontrivialCount {
+		if len(exp) > 0 {
+			w.Nontrivial(1)
+		}
+		if nPairs > 0 {
+			rn.count("expect:has-pairs", 1)
+		}
+		if nUL > 0 {
+			rn.count("expect:has-left-unpaired", 1)
+		}
+		if nUR > 0 {
+			rn.count("expect:has-right-unpaired", 1)
+		}
+		if len(exp) == 0 {
+			rn.count("expect:empty-output", 1)
+		}
+		w.AddSet("outcome-shapes", fmt.Sprintf("p%d/ul%d/ur%d", nPairs, nUL, nUR))
+	}
+	key := caseKey(iv.args, pc.L, pc.R)
+	expCanon := canonMultiset(expRecs)
+	if !eqStrings(canonMultiset(got), expCanon) {
+		g := "model-multiset:"
+		if amb := joinedKeyAmbiguous(pc); amb != "" {
+			// two different key tuples of this case have the same comma-joined text: reported under its own
+			// group, keyed by the field naming and the colliding tuples (not by every option set and input pair)
+			g = "model-multiset-joinedkey:"
+			key = strings.Join(o.lj, ",") + "/" + strings.Join(o.rj, ",") + "|" + amb
+		}
+		rn.viol(g+key, fmt.Sprintf("`%s`\n got:      %s\n expected (as a multiset): %s", iv.shell(), recsString(got), recsString(expRecs)),
+			iv.replay(map[string]any{"got": recsString(got), "expected": recsString(expRecs)}))
+		return false, expCanon
+	}
+	// paired records: right-stream order, then left-file order within a key.
+	// (A right record is paired or not as a whole, so "has a paired rid" identifies the paired records.)
+	var gotPairs, expPairs []rec
+	lastPairPos, firstLeftOnly, firstRightOnly := -1, -1, -1
+	for i, r := range got {
+		v, has := r.get(ridName)
+		if has && pairedRid[v] {
+			gotPairs = append(gotPairs, r)
+			lastPairPos = i
+		} else if !has && firstLeftOnly < 0 {
+			firstLeftOnly = i
+		} else if has && firstRightOnly < 0 {
+			firstRightOnly = i
+		}
+	}
+	for _, e := range exp {
+		if e.kind == kPaired {
+			expPairs = append(expPairs, e.r)
+		}
+	}
+	if !eqRecSeq(gotPairs, expPairs) {
+		rn.viol("model-pair-order:"+key, fmt.Sprintf("`%s`: paired records are not in right-stream order then left-file order\n got:      %s\n expected: %s", iv.shell(), recsString(gotPairs), recsString(expPairs)),
+			iv.replay(map[string]any{"got": recsString(got)}))
+	}
+	// questions-about-joins.md: "Paired records are emitted first ..., then the unpaired database [left] records"
+	if firstLeftOnly >= 0 && firstLeftOnly < lastPairPos {
+		rn.viol("order-ul-before-pair:"+key, fmt.Sprintf("`%s`: an unpaired left record precedes a paired record in default mode: %s", iv.shell(), recsString(got)), iv.replay(nil))
+	}
+	// not fixed by the documentation: where right-unpaired records sit relative to paired ones, order among left-unpaired
+	if nUR > 0 && nPairs > 0 {
+		rn.count("unconstrained:right-unpaired-vs-paired-interleaving", 1)
+		if firstRightOnly >= 0 && firstRightOnly < lastPairPos {
+			// questions-about-joins.md also says "unpaired records are emitted after all paired records"; for
+			// right-unpaired records the streaming join cannot do that and the reference-verbs text does not ask for it
+			rn.count("unconstrained:right-unpaired-emitted-before-a-paired-record", 1)
+		}
+	}
+	if nUL > 1 {
+		rn.count("unconstrained:order-among-left-unpaired", 1)
+	}
+	return true, expCanon
+}
+
+// joinedKeyAmbiguous: the case contains two complete key tuples that differ as
+// tuples but have the same text once joined with commas.
+func joinedKeyAmbiguous(pc pairCase) string {
+	seen := map[string]tuple{}
+	for _, ts := range [][]tuple{pc.L, pc.R} {
+		for _, t := range ts {
+			if len(t) < 2 || inList(missing, t) {
+				continue
+			}
+			j := strings.Join(t, ",")
+			if prev, ok := seen[j]; ok && strings.Join(prev, "\x00") != strings.Join(t, "\x00") {
+				a, b := prev.String(), t.String()
+				if b < a {
+					a, b = b, a
+				}
+				return a + "~" + b
+			}
+			seen[j] = t
+		}
+	}
+	return ""
+}
+
+// laws evaluates the model-free identities on the 7 emit-flag outputs of one
+// (inputs, naming, prefix/keep variant, --ignore-empty) group in default mode.
+func (rn *runner) laws(g []groupOut, n *naming, p *pvar, ie bool, pc pairCase) {
+	full := g[eFull]
+	if !full.ok {
+		return
+	}
+	lidName, ridName := p.lp+"lid", p.rp+"rid"
+	key := caseKey(full.iv.args, pc.L, pc.R)
+	// --ignore-empty never pairs empty keys
+	if ie {
+		for ei := range g {
+			if !g[ei].ok {
+				continue
+			}
+			for _, r := range g[ei].recs {
+				_, hl := r.get(lidName)
+				_, hr := r.get(ridName)
+				if !(hl && hr) {
+					continue
+				}
+				for _, on := range n.oj {
+					if v, ok := r.get(on); ok && v == "" {
+						rn.viol("law-ignore-empty:"+caseKey(g[ei].iv.args, pc.L, pc.R), fmt.Sprintf("`%s`: --ignore-empty paired records on an empty join value: %s", g[ei].iv.shell(), r.String()), g[ei].iv.replay(nil))
+					}
+				}
+			}
+		}
+	}
+	if !p.lidVisible {
+		rn.count("laws:skipped-lid-not-kept", 1)
+		return
+	}
+	rn.count("laws:evaluated", 1)
+	// exactly once under --ul --ur: every input record appears, as paired (possibly several times) or as unpaired (once), never both
+	type cnt struct{ paired, alone int }
+	lc, rc := map[string]*cnt{}, map[string]*cnt{}
+	for i := range pc.L {
+		lc[fmt.Sprintf("L%d", i)] = &cnt{}
+	}
+	for i := range pc.R {
+		rc[fmt.Sprintf("R%d", i)] = &cnt{}
+	}
+	bad := ""
+	for _, r := range full.recs {
+		lv, hl := r.get(lidName)
+		rv, hr := r.get(ridName)
+		if !hl && !hr {
+			bad = "an output record carries no input record's id: " + r.String()
+			break
+		}
+		if hl {
+			c := lc[lv]
+			if c == nil {
+				bad = "unknown left id in " + r.String()
+				break
+			}
+			if hr {
+				c.paired++
+			} else {
+				c.alone++
+			}
+		}
+		if hr {
+			c := rc[rv]
+			if c == nil {
+				bad = "unknown right id in " + r.String()
+				break
+			}
+			if hl {
+				c.paired++
+			} else {
+				c.alone++
+			}
+		}
+	}
+	if bad == "" {
+		for id, c := range lc {
+			if !((c.paired >= 1 && c.alone == 0) || (c.paired == 0 && c.alone == 1)) {
+				bad = fmt.Sprintf("left record %s appears %d time(s) paired and %d time(s) unpaired", id, c.paired, c.alone)
+			}
+		}
+		for id, c := range rc {
+			if !((c.paired >= 1 && c.alone == 0) || (c.paired == 0 && c.alone == 1)) {
+				bad = fmt.Sprintf("right record %s appears %d time(s) paired and %d time(s) unpaired", id, c.paired, c.alone)
+			}
+		}
+	}
+	if bad != "" {
+		rn.viol("ids-exactly-once:"+key, fmt.Sprintf("`%s`: with --ul --ur every input record must appear exactly once (as paired or as unpaired): %s\n output: %s", full.iv.shell(), bad, recsString(full.recs)), full.iv.replay(nil))
+	}
+	// every other emit-flag combination = the matching selection from the --ul --ur output (so --np removes exactly the paired ones)
+	for ei := range g {
+		if ei == eFull || !g[ei].ok {
+			continue
+		}
+		e := &emits[ei]
+		var sel []rec
+		for _, r := range full.recs {
+			_, hl := r.get(lidName)
+			_, hr := r.get(ridName)
+			switch {
+			case hl && hr:
+				if !e.np {
+					sel = append(sel, r)
+				}
+			case hl:
+				if e.ul {
+					sel = append(sel, r)
+				}
+			case hr:
+				if e.ur {
+					sel = append(sel, r)
+				}
+			}
+		}
+		if !eqStrings(canonMultiset(sel), canonMultiset(g[ei].recs)) {
+			rn.viol("law-emit-filter:"+caseKey(g[ei].iv.args, pc.L, pc.R), fmt.Sprintf("`%s`: output is not the {%s} selection of the --ul --ur output\n got:       %s\n selection: %s\n --ul --ur: %s",
+				g[ei].iv.shell(), e.name, recsString(g[ei].recs), recsString(sel), recsString(full.recs)), g[ei].iv.replay(nil))
+		}
+	}
+}
+
+// formatPass: the left file's format must not matter. Runs dkvp/json (and csv
+// when the left list is one homogeneous table) on thin option sets.
+func (rn *runner) formatPass(fam *family, n *naming, pc pairCase) {
+	ieMax := 2
+	w := rn.w
+	type variant struct {
+		hetero bool
+	}
+	ps := []*pvar{&pvarsAll[0], &pvarsAll[3]}
+	for _, hetero := range []bool{true, false} {
+		L, R := buildLeft(pc.L, n.lj, hetero), buildRight(pc.R, n.rj, hetero)
+		rtext := writeDKVP(R, fam.ifs)
+		type lf struct{ fmtName, flag, lname, text string }
+		fmts := []lf{{"json", "json", "L.json", writeJSON(L)}}
+		if !hetero {
+			fmts = append(fmts, lf{"dkvp", "", "L.dkvp", writeDKVP(L, fam.ifs)})
+			if len(L) == 0 || homogeneous(L) {
+				fmts = append(fmts, lf{"csv", "csv", "L.csv", writeCSV(L)})
+				rn.count("domain:csv-representable-left", 1)
+			} else {
+				rn.count("domain:csv-unrepresentable-left(heterogeneous)", 1)
+			}
+		}
+		for _, p := range ps {
+			for ie := 0; ie < ieMax; ie++ {
+				e := &emits[eFull]
+				for _, f := range fmts {
+					iv := &invocation{args: buildArgs(fam.ifs, "", e, ie == 1, n, p, f.flag, f.lname), lname: f.lname, ltext: f.text, rtext: rtext}
+					recs, ok := rn.exec(iv)
+					if !ok {
+						continue
+					}
+					rn.count("leftfmt:"+f.fmtName, 1)
+					rn.checkModel(iv, recs, L, R, mkOpts(n, p, e, ie == 1), pc, false)
+				}
+			}
+		}
+	}
+	_ = w
+}
+
+// ---------------------------------------------------------------- orchestrator
+
+func run(c *vf.Ctx) {
+	c.Rule = "every (left list, right list) over the key alphabet with lists of bounded length x every option set of the family (7 emit-flag sets x --ignore-empty x field naming x prefix/keep variant x {default, -s}); each invocation goes through the whole CLI in-process (left file served by name, right stream on stdin). distinct_nontrivial = default-mode invocations whose reference output is non-empty (all invocations differ in input or options by construction)"
+	c.Assume("bounds: join-key alphabet {1, 2, empty, missing, 01}, lists of <= 3 records per side (quick: 01 only in lists of <= 2), two-field keys in lists of <= 2 (thorough: <= 3 on a 5-tuple alphabet), zero-field join on lists of <= 3")
+	c.Assume("non-join field names never equal a join-field output name; left/right non-join names collide on v (always) and x (left record 1 / right record 0)")
+	c.Assume("relative position of right-unpaired records among paired records, and order among left-unpaired records, are not fixed by the documentation: counted as unconstrained, only their multiset is asserted")
+	c.Assume("-s (sorted-input mode): asserted equal as a multiset to default mode only when both inputs are sorted (lexically ascending on the join-field texts, key-less records anywhere; violations on lists whose key-less records are not last are reported under a separate key); on unsorted input only: terminates, exit 0, parseable output, no paired record that is not a true pairing")
+	c.Assume("left-file formats: dkvp everywhere; json and csv on thin option sets (--ul --ur, with/without --ignore-empty, no prefix / --lp --rp); csv only when the left list is one homogeneous table")
+	c.Assume("--prepipe/--prepipex for the left file and the nested left-reader's scheduling (E1 part) are not covered here")
+	c.Assume("values are compared as text after --jvquoteall JSON Lines output; number formatting is C02/C03's subject")
+	stall := 180
+	if v, err := strconv.Atoi(os.Getenv("VERIF_C13_STALL")); err == nil && v > 0 {
+		stall = v // debugging aid
+	}
+	res := c.RunPool(vf.PoolSpec{Worker: "grid", Shards: 256, StallSecs: stall,
+		CrashKey: func(idx uint64, label, kind, tail string) (string, string) {
+			return "crash:" + label, fmt.Sprintf("join invocation in block %d (%s) makes the process %s: %s", idx, label, kind, tail)
+		}})
+	c.Extra["distinct_outcome_shapes"] = vf.SetSize(res, "outcome-shapes")
+	c.Extra["outcome_shapes"] = vf.SortedSet(res, "outcome-shapes")
+	var fams []string
+	for _, f := range families(c.Quick()) {
+		fams = append(fams, fmt.Sprintf("%s: alphabet %s, lists<=%d, %d pairs, %d namings, %d prefix/keep variants", f.name, tuplesString(f.alpha), f.maxLen, len(f.pairs()), len(f.names), len(f.pv[0])))
+	}
+	c.Extra["families"] = fams
+	// vacuity: every flag and symbol must have been exercised
+	for _, k := range []string{"flag:--np", "flag:--ul", "flag:--ur", "flag:--ignore-empty", "flag:-s", "flag:-u", "flag:--lp", "flag:--rp", "flag:--lk", "flag:-l", "flag:-r", "flag:-j", "flag:-i",
+		"sym:L:1", "sym:L:2", "sym:L:E", "sym:L:M", "sym:L:01", "sym:R:1", "sym:R:E", "sym:R:M", "mode:s-sorted-input", "mode:s-unsorted-input", "leftfmt:json", "leftfmt:csv", "expect:has-pairs", "expect:has-left-unpaired", "expect:has-right-unpaired"} {
+		if c.Counters[k] == 0 && os.Getenv("VERIF_C13_FAMILY") == "" {
+			c.Broken("vacuity: %s was never exercised", k)
+		}
+	}
+}
